@@ -9,3 +9,6 @@ Proof. split; vm_compute; [reflexivity|discriminate]. Qed.
 (* the shipped in-memory store implements the atomic set-if-absent, so Generate takes the SetNX branch *)
 Lemma shipped_store_is_atomic : memory_store_has_SetNX = true.
 Proof. reflexivity. Qed.
+(* the regenerated heartbeat period (literal of time.NewTicker in heartbeatLoop) is positive and within the lease lifetime *)
+Lemma heartbeat_within_lease : 0 < NodeHeartbeatSeconds /\ NodeHeartbeatSeconds <= NodeLockTTLSeconds.
+Proof. vm_compute. lia. Qed.
